@@ -159,6 +159,12 @@ func ZZ_C19_Operators() {
 	iff(sdf.Intersect(a, b, c)(p) < 0, zz.And(A < 0, zz.And(B < 0, C < 0)), "intersect(3): negative exactly on the intersection")
 	iff(sdf.Subtract(a, b)(p) < 0, zz.And(A < 0, B > 0), "subtract: negative exactly inside the base and strictly outside the subtraction")
 	zz.AssertNear(sdf.Union(a)(p), A, "union(1) is the operand")
+	// four and five operands (odd and even counts; the last operand matters)
+	D, E := zz.Float64("D"), zz.Float64("E")
+	d, e := constField(D), constField(E)
+	iff(sdf.Union(a, b, c, d)(p) < 0, zz.Or(zz.Or(A < 0, B < 0), zz.Or(C < 0, D < 0)), "union(4): negative exactly on the union of the interiors")
+	iff(sdf.Union(a, b, c, d, e)(p) < 0, zz.Or(zz.Or(zz.Or(A < 0, B < 0), zz.Or(C < 0, D < 0)), E < 0), "union(5): negative exactly on the union of the interiors")
+	iff(sdf.Intersect(a, b, c, d)(p) < 0, zz.And(zz.And(A < 0, B < 0), zz.And(C < 0, D < 0)), "intersect(4): negative exactly on the intersection")
 }
 
 // translation moves the shape by the offset
